@@ -48,6 +48,13 @@ impl Node {
         }
     }
 
+    /// Verification hook: rebuild a node with a known id (state decoding in the harness).
+    /// Does not touch the global node counter.
+    #[cfg(pushr_verif)]
+    pub fn with_id(node_id: usize, state: i32) -> Self {
+        Self { node_id, state }
+    }
+
     pub fn get_id(&self) -> usize {
         self.node_id
     }
